@@ -349,6 +349,8 @@ def band(x, mask: int):
     d = bits_of(x)
     if d is not None:
         return mk_bits({k: b for k, b in d.items() if mask >> k & 1})
+    if mask >= 3 and mask & (mask + 1) == 0:
+        return x % (mask + 1)  # low-bits mask 2**k - 1: the residue (Python's & on any int is two's complement)
     terms = [bit(x, k) * (2 ** k) for k in range(mask.bit_length()) if mask >> k & 1]
     if not terms:
         return z3.IntVal(0)
